@@ -829,7 +829,8 @@ class PVLParser(object):
                 + f'at the end, but found "{t}"'
             )
 
-        delim_strip = t.strip("".join(self.grammar.units_delimiters))
+        (start_delim, end_delim) = self.grammar.units_delimiters
+        delim_strip = t[len(start_delim):-len(end_delim)]
 
         units_value = delim_strip.strip("".join(self.grammar.whitespace))
 
